@@ -277,6 +277,15 @@ def before(fi, a, b):
     return order[1].get(id(a), -1) < order[1].get(id(b), -1)
 
 
+def is_snapshot_of(expr, container):
+    """the expression is a copy of the container's keys made before the loop starts: list(c), tuple(c), sorted(c), the same over
+    c.keys(), or c.copy() - iterating it is unaffected by entries added or removed meanwhile"""
+    t = norm(expr)
+    forms = ["%s(%s)" % (f, container) for f in ("list", "tuple", "sorted", "set", "frozenset")] + \
+            ["%s(%s.keys())" % (f, container) for f in ("list", "tuple", "sorted")] + ["%s.copy()" % container, "list(%s.copy())" % container]
+    return t in forms
+
+
 def loop_shadowing(ctx, rule, modules):
     """A name that is used after a `for` loop and whose reaching definitions there include both the loop's own target and
     another binding (an earlier assignment or a parameter) has been shadowed by accident: after at least one iteration it holds
